@@ -255,3 +255,48 @@ Example C19_main_prog_example :
   let o := DriverInst.model_run (Driver.mkcfg 8 3 1 0 true true true) 130 false 28 in
   (DriverInst.o_k o, DriverInst.o_rf o, DriverInst.o_pending o) = (5, [(0, []); (3, [0; 1; 2]); (5, [3; 4])], []).
 Proof. vm_compute. reflexivity. Qed.
+
+(** * (4) with what main() passes to the constructors (Gen/Gen_ModStep.v, regenerated from src/main.cpp)
+
+    [main_modampl lin opt], [main_modtimeincrement lin opt] are the expressions main() passes as
+    `modampl` and `modtimeincrement` to the linear / sinusoidal DynamicRFKickMap constructor, as
+    functions of the option getters ([opt "getX"]) and of the synchrotron frequency [opt "fs"].
+    [dt_spec]: duration of one step from the options alone - 1/(f_rev StepsPerRevolution) when
+    StepsPerRevolution > 0 (it overrides StepsPerTs), else 1/(f_s max(StepsPerTs,1));
+    [ampl_spec]: RFPhaseModAmplitude in rad (negative values clamped to 0). *)
+From Inovesa Require Import Gen.Gen_ModStep Proofs.ModStepP.
+Local Open Scope R_scope.
+
+Theorem C19_main_passes_configured_modulation :
+  forall (lin : bool) (opt : string -> R),
+    opt "fs"%string <> 0 -> opt "getRevolutionFrequency"%string <> 0 ->
+    main_modtimeincrement lin opt = opt "getRFPhaseModFrequency"%string * dt_spec opt /\
+    main_modampl lin opt = ampl_spec opt.
+Proof. exact (fun lin opt H1 H2 => conj (main_modstep_is_fmod_dt lin opt H1 H2) (main_modampl_is_configured lin opt)). Qed.
+Print Assumptions C19_main_passes_configured_modulation.
+
+(** end to end: pure sinusoidal modulation (both spreads zero) has the configured amplitude and
+    frequency: the record of step k is (syncphase + A sin(2 pi f_mod t_k), 1) with t_k = k dt *)
+Theorem C19_modulation_as_configured :
+  forall (lin : bool) (fsqrt : R -> R) (sync : R) (opt cenv : string -> R) (noise : nat -> R) (steps k : nat),
+    cenv "phasespread"%string = 0 -> cenv "amplspread"%string = 0 ->
+    cenv "modampl"%string = main_modampl lin opt -> cenv "modtimeincrement"%string = main_modtimeincrement lin opt ->
+    opt "fs"%string <> 0 -> opt "getRevolutionFrequency"%string <> 0 -> (k < steps)%nat ->
+    let d := if lin then dyncfg_linear RF fsqrt (2 * PI) cenv else dyncfg_sinusoidal RF fsqrt (2 * PI) cenv in
+    nth_error (calc_modulation (K:=RF) sin sync d noise steps) k =
+    Some (sync + ampl_spec opt * sin (2 * PI * opt "getRFPhaseModFrequency"%string * (INR k * dt_spec opt)), 1).
+Proof. exact modulation_as_configured. Qed.
+Print Assumptions C19_modulation_as_configured.
+
+(** the queue is as long as the loop can run: both constructor calls of main() pass, as `steps`,
+    the very variable that bounds the main loop, and main() never reassigns it (hypothesis
+    [laststep <= length mq] of C19_main_prog_records) *)
+Theorem C19_main_queue_covers_loop : main_dyn_steps_arg_is_loop_bound = true.
+Proof. exact main_steps_arg_checked. Qed.
+Print Assumptions C19_main_queue_covers_loop.
+
+(** non-vacuity: 9 MHz revolution frequency, f_s = 9 kHz, 0.02 steps per revolution
+    (= 20 per synchrotron period), whatever -N says: dt = 1/(9e6 * 0.02) *)
+Example C19_dt_example :
+  ex_opt "fs"%string <> 0 /\ ex_opt "getRevolutionFrequency"%string <> 0 /\ dt_spec ex_opt = / 180000.
+Proof. exact dt_example. Qed.
